@@ -168,6 +168,29 @@ pub fn within(hay: &[u8], s: &str) -> bool {
     s.is_empty() || (sp >= hp && sp + s.len() <= hp + hay.len())
 }
 
+/// number of threads answering the operations of a mapping group (C20 / C14); 1 = sequential
+pub static THREADS: std::sync::atomic::AtomicUsize = std::sync::atomic::AtomicUsize::new(1);
+
+// compile-time part of C20: the public handle, iterator and result types are Send + Sync
+#[allow(dead_code)]
+fn assert_send_sync<T: Send + Sync>() {}
+#[allow(dead_code)]
+fn static_assertions() {
+    assert_send_sync::<ProguardMapper<'static>>();
+    assert_send_sync::<ProguardCache<'static>>();
+    assert_send_sync::<ProguardMapping<'static>>();
+    assert_send_sync::<proguard::RemappedFrameIter<'static>>();
+    assert_send_sync::<ProguardRecordIter<'static>>();
+    assert_send_sync::<ProguardRecord<'static>>();
+    assert_send_sync::<ParseError<'static>>();
+    assert_send_sync::<StackFrame<'static>>();
+    assert_send_sync::<StackTrace<'static>>();
+    assert_send_sync::<Throwable<'static>>();
+    assert_send_sync::<DeobfuscatedSignature>();
+    assert_send_sync::<CacheError>();
+    assert_send_sync::<MappingSummary<'static>>();
+}
+
 struct Ctx<'a> {
     mapping: &'a [u8],
     mapper: Option<ProguardMapper<'a>>,
@@ -208,8 +231,47 @@ fn run_mapping_ops(mapping: &[u8], ops: &[&str], out: &mut Vec<String>) {
         },
     };
     let ctx = Ctx { mapping, mapper, mapper0, cache_bytes: abuf.as_ref(), cache, cache_state };
-    for op in ops {
-        out.push(run_op(&ctx, op));
+    let nthreads = THREADS.load(std::sync::atomic::Ordering::Relaxed);
+    if nthreads <= 1 || ops.len() < 2 {
+        for op in ops {
+            out.push(run_op(&ctx, op));
+        }
+        return;
+    }
+    // one shared mapper / cache, the queries split over the threads in a seeded random way;
+    // every thread yields at random points to vary the interleaving
+    let mut rng = Rng(0x20c0 ^ (ops.len() as u64).wrapping_mul(0x9E37) ^ mapping.len() as u64);
+    let assignment: Vec<usize> = ops.iter().map(|_| rng.below(nthreads)).collect();
+    let mut answers: Vec<Option<String>> = vec![None; ops.len()];
+    let ctx_ref = &ctx;
+    let results: Vec<Vec<(usize, String)>> = std::thread::scope(|sc| {
+        let handles: Vec<_> = (0..nthreads)
+            .map(|t| {
+                let assignment = &assignment;
+                let mut trng = Rng(rng.next());
+                sc.spawn(move || {
+                    let mut mine = Vec::new();
+                    for (i, op) in ops.iter().enumerate() {
+                        if assignment[i] == t {
+                            if trng.chance(1, 3) {
+                                std::thread::yield_now();
+                            }
+                            mine.push((i, run_op(ctx_ref, op)));
+                        }
+                    }
+                    mine
+                })
+            })
+            .collect();
+        handles.into_iter().map(|h| h.join().unwrap_or_default()).collect()
+    });
+    for v in results {
+        for (i, a) in v {
+            answers[i] = Some(a);
+        }
+    }
+    for a in answers {
+        out.push(a.unwrap_or_else(|| "THREAD-DIED".to_string()));
     }
 }
 
@@ -339,6 +401,8 @@ fn run_op(ctx: &Ctx, line: &str) -> String {
                 with_cache("g", &toks[1..])
             )
         }
+        "U" => or_panic(guarded(|| format!("u={}", hex(pm.uuid().as_bytes())))),
+        "Z" => or_panic(guarded(|| run_sink_op(ctx.mapping, &toks[1..]))),
         "W" => match ctx.cache_bytes {
             None => format!("w={}", ctx.cache_state),
             Some(a) => {
@@ -459,8 +523,80 @@ fn run_trace_ast(toks: &[&str]) -> String {
     format!("p={};rt={};rp={}", hex(text.as_bytes()), rt as u8, rp as u8)
 }
 
+#[derive(Clone, Copy)]
+enum Resp {
+    Short(usize),
+    Interrupted,
+    Fail,
+}
+/// a sink obeying the I/O contract: at most `max` bytes per call (0 = unlimited), scripted calls
+struct ScriptSink {
+    max: usize,
+    script: Vec<(usize, Resp)>,
+    calls: usize,
+    accepted: Vec<u8>,
+}
+impl std::io::Write for ScriptSink {
+    fn write(&mut self, buf: &[u8]) -> std::io::Result<usize> {
+        let i = self.calls;
+        self.calls += 1;
+        let r = self.script.iter().find(|(j, _)| *j == i).map(|(_, r)| *r);
+        let n = match r {
+            Some(Resp::Interrupted) => return Err(std::io::Error::from(std::io::ErrorKind::Interrupted)),
+            Some(Resp::Fail) => return Err(std::io::Error::new(std::io::ErrorKind::Other, "scripted failure")),
+            Some(Resp::Short(k)) => k.min(buf.len()),
+            None => {
+                if self.max == 0 {
+                    buf.len()
+                } else {
+                    self.max.min(buf.len())
+                }
+            }
+        };
+        self.accepted.extend_from_slice(&buf[..n]);
+        Ok(n)
+    }
+    fn flush(&mut self) -> std::io::Result<()> {
+        Ok(())
+    }
+}
+
+fn run_sink_op(mapping: &[u8], toks: &[&str]) -> String {
+    let max: usize = toks[0].strip_prefix("max=").expect("max=").parse().expect("max");
+    let mut script = Vec::new();
+    for t in &toks[1..] {
+        let (i, r) = t.split_once(':').expect("idx:resp");
+        let i: usize = i.parse().expect("idx");
+        let r = match r {
+            "I" => Resp::Interrupted,
+            "F" => Resp::Fail,
+            s => Resp::Short(s[1..].parse().expect("short")),
+        };
+        script.push((i, r));
+    }
+    let pm = ProguardMapping::new(mapping);
+    let mut canon = Vec::new();
+    ProguardCache::write(&pm, &mut canon).expect("vec write");
+    let mut sink = ScriptSink { max, script, calls: 0, accepted: Vec::new() };
+    let res = ProguardCache::write(&pm, &mut sink);
+    let r = match &res {
+        Ok(()) => "ok",
+        Err(e) if e.kind() == std::io::ErrorKind::WriteZero => "zero",
+        Err(_) => "fail",
+    };
+    format!(
+        "r={};n={};calls={};pfx={};full={};h={}",
+        r,
+        sink.accepted.len(),
+        sink.calls,
+        canon.starts_with(&sink.accepted) as u8,
+        (canon == sink.accepted) as u8,
+        hex(&sink.accepted)
+    )
+}
+
 fn is_group_op(l: &str) -> bool {
-    matches!(l.split(' ').next().unwrap_or(""), "I" | "D" | "K" | "T" | "L" | "P" | "S" | "Y" | "G" | "W")
+    matches!(l.split(' ').next().unwrap_or(""), "I" | "D" | "K" | "T" | "L" | "P" | "S" | "Y" | "G" | "W" | "U" | "Z")
 }
 fn is_x_op(l: &str) -> bool {
     matches!(l.split(' ').next().unwrap_or(""), "k" | "t" | "l" | "p" | "s" | "g")
